@@ -88,8 +88,13 @@ TStep ==
      \/ /\ e.ev = "release" /\ pc[s] = "RelHit" /\ RelHit(s) /\ Finish(IF e.owner = s THEN "" ELSE "release-not-owner", devby)
      \/ /\ e.ev = "release" /\ pc[s] # "RelHit" /\ Release(s) /\ Finish(IF e.owner = s THEN "" ELSE "release-not-owner", devby)
      \/ /\ e.ev = "fin" /\ Fin(s) /\ Finish(FinClause(e, s), devby)
+     \/ /\ e.ev = "fin" /\ pc[s] \in Held /\ mutex = s        \* the call returned / raised without releasing the mutex
+        /\ UNCHANGED vars /\ Finish("MutexDiscipline:returned-holding-mutex", devby)
      \/ /\ e.ev = "end" /\ UNCHANGED vars
-        /\ Finish(IF e.status # "ok" THEN "NoThreadBlocked" ELSE IF ~AllDone THEN "end-before-all-returned" ELSE "", devby)
+        /\ Finish(IF e.status # "ok" THEN "NoThreadBlocked"
+                  ELSE IF ~AllDone THEN "end-before-all-returned"
+                  ELSE IF e.mutex # "free" \/ mutex # "free" THEN "MutexDiscipline:held-at-end"   \* observed lock / model lock
+                  ELSE "", devby)
 \* an event whose action is not enabled (the thread is at another label than the event says)
 TStuck ==
   /\ verdict = "run" /\ l <= Len(Ev) /\ ~ENABLED TStep
